@@ -849,6 +849,25 @@ def absval(p):
     return P.of_atom(_mk("Abs", (p.key(),), args=(p,), nonneg=True))
 
 
+def clampf(p, lo, hi):
+    """min(max(p, lo), hi) for a real element and concrete bounds (None = unbounded): an opaque atom with a numeric
+    reading (no identity is applied to it except evaluation; z3 sees the if-then-else)."""
+    p = to_P(p)
+    if lo is None and hi is None:
+        return p
+    if p.is_const() and not isinstance(p.const_value(), complex):
+        v = p.const_value()
+        if lo is not None and v < lo:
+            v = lo
+        if hi is not None and v > hi:
+            v = hi
+        return to_P(v)
+    lo_k = None if lo is None else Fr(lo).limit_denominator(10 ** 12)
+    hi_k = None if hi is None else Fr(hi).limit_denominator(10 ** 12)
+    return P.of_atom(_mk("Cl", (p.key(), str(lo_k), str(hi_k)), args=(p, lo_k, hi_k),
+                         nonneg=(lo_k is not None and lo_k >= 0), pos=(lo_k is not None and lo_k > 0)))
+
+
 def _loglin_terms(p):
     """Decompose a real polynomial into [(q, generator Atom or None)] if it is a
     rational-linear combination of generator atoms (par / Lg / At / real UF)."""
@@ -859,7 +878,7 @@ def _loglin_terms(p):
             continue
         if len(m) == 1 and m[0][1] == 1:
             at = _ATOMS[m[0][0]]
-            if at.kind in ("par", "Lg", "At") or (at.kind == "UF" and at.real):
+            if at.kind in ("par", "Lg", "At", "Cl") or (at.kind == "UF" and at.real):
                 out.append((Fr(c), at))
                 continue
         raise Unmodelled("exp/cis of a non-linear argument: %s" % p.short())
@@ -1299,6 +1318,11 @@ def _datom(at, x, memo):
         if du.t:
             raise Unmodelled("derivative of |u|")
         r = ZERO
+    elif k == "Cl":
+        du = diff(at.args[0], x, memo)
+        if du.t:
+            raise Unmodelled("derivative of a clamped value")
+        r = ZERO
     else:
         raise Unmodelled("derivative of atom kind %s" % k)
     memo[at.id] = r
@@ -1353,6 +1377,13 @@ def _evatom(at, env, cache):
         r = math.atan2(y, x)
     elif k == "Abs":
         r = abs(evalf(at.args[0], env, cache))
+    elif k == "Cl":
+        r = evalf(at.args[0], env, cache)
+        r = r.real if isinstance(r, complex) else r
+        if at.args[1] is not None:
+            r = max(r, float(at.args[1]))
+        if at.args[2] is not None:
+            r = min(r, float(at.args[2]))
     else:
         raise Unmodelled("evalf of %s" % k)
     cache[at.id] = r
